@@ -112,7 +112,8 @@ def get_lpddr_phy_init_sequence(phy_settings, timing_settings):
 def get_ddr2_phy_init_sequence(phy_settings, timing_settings):
     cl   = phy_settings.cl
     bl   = 4
-    wr   = 2
+    # Write Recovery in DRAM clocks (2..8 encodable), MR[11:9] = WR - 1.
+    wr   = min(max(timing_settings.tWR*phy_settings.nphases, 2), 8) - 1 # >= ceiling(tWR/tCK)
     mr   = log2_int(bl) + (cl << 4) + (wr << 9)
     emr  = 0
     emr2 = 0
@@ -218,7 +219,8 @@ def get_ddr3_phy_init_sequence(phy_settings, timing_settings):
     ron     = getattr(phy_settings, "ron",     "34ohm")
     tdqs    = getattr(phy_settings, "tdqs",    0)
 
-    wr  = max(timing_settings.tWTR*phy_settings.nphases, 5) # >= ceiling(tWR/tCK)
+    # Smallest encodable Write Recovery covering tWR (falls back to the largest one).
+    wr  = min([v for v in [5, 6, 7, 8, 10, 12, 14, 16] if v >= timing_settings.tWR*phy_settings.nphases] or [16]) # >= ceiling(tWR/tCK)
     mr0 = format_mr0(bl, cl, wr, 1)
     mr1 = format_mr1(z_to_ron[ron], z_to_rtt_nom[rtt_nom], tdqs)
     mr2 = format_mr2(cwl, z_to_rtt_wr[rtt_wr])
@@ -423,7 +425,8 @@ def get_ddr4_phy_init_sequence(phy_settings, timing_settings):
     dm      = 1
     assert not (dm and tdqs)
 
-    wr  = max(timing_settings.tWTR*phy_settings.nphases, 10) # >= ceiling(tWR/tCK)
+    # Smallest encodable Write Recovery covering tWR (falls back to the largest one).
+    wr  = min([v for v in [10, 12, 14, 16, 18, 20, 22, 24, 26, 28] if v >= timing_settings.tWR*phy_settings.nphases] or [28]) # >= ceiling(tWR/tCK)
     mr0 = format_mr0(bl, cl, wr, 1)
     mr1 = format_mr1(1, z_to_ron[ron], z_to_rtt_nom[rtt_nom], tdqs)
     mr2 = format_mr2(cwl, z_to_rtt_wr[rtt_wr])
